@@ -1,5 +1,5 @@
 SPECIFICATION SpecM
-CONSTANTS MaxNodes = 5 Kinds <- KindsT Pos <- PosT Keys <- KeysT
+CONSTANTS MaxNodes = 4 Kinds <- KindsT Pos <- PosT Keys <- KeysT
 VIEW ShapeView
 INVARIANTS TypeOK WellFormed OnceInForest Refines QueryInv
 PROPERTIES QueryAgree CloneIso ReleaseOnce
